@@ -115,7 +115,12 @@ class _FakeEioBase:
 
     idprefix = 'S'      # hosts of a cluster get distinct prefixes (engine.io ids are globally unique)
 
+    forced_ids = ()     # harness hook: the next ids to hand out (an application may configure predictable ids)
+
     def generate_id(self):
+        if self.forced_ids:
+            self.forced_ids = list(self.forced_ids)
+            return self.forced_ids.pop(0)
         self.n += 1
         return '%s%d' % (self.idprefix, self.n)
 
